@@ -249,7 +249,7 @@ func runCase(rt *rapid.T, maxN int) {
 	n := rapid.IntRange(3, maxN).Draw(rt, "n")
 	mat := newMaterial(n)
 	f := (n - 1) / 3
-	nVals := rapid.IntRange(1, 2).Draw(rt, "validators")
+	nVals := rapid.SampledFrom([]int{1, 2, 2, 2}).Draw(rt, "validators")
 	vals := mat.vals[:nVals]
 	genesis := time.Now()
 	bn := fakebn.NewCompact(genesis, 12*time.Second, 32)
